@@ -253,39 +253,50 @@ def unmarshalE {V : Type} (C : Codec V) (keySize : Nat) (c : Cell) : Outcome (Li
 
 /-! ## HashmapAug / HashmapAugE (decode side only: MarshalTLB is "not implemented") -/
 
-/-- HashmapAug.mapInner. The extras are not observable through Keys()/Values(): `skipX` = decoding one extra from the
-current position of the cell, returning what is left (bits, refs). A fork decodes its extra after both branches, a
-leaf decodes extra then value. -/
-def mapInnerAug {V : Type} (skipX : List Bool → List Cell → Outcome (List Bool × List Cell)) (C : Codec V)
-    (keySize : Nat) : Nat → Int → Cell → Key → Outcome (List (Key × V))
+/-- decoder of one extra `Y` from the current position of a cell: the value and what is left (bits, refs) -/
+abbrev XDec (Y : Type) := List Bool → List Cell → Outcome (Y × List Bool × List Cell)
+
+/-- HashMapAugExtraList: the tree of extras Go builds next to keys/values. A leaf has Left = Right = nil; below a
+pruned branch (and for an empty dictionary) the node keeps Go's zero value, i.e. looks like a leaf holding `zero`. -/
+inductive AugExtras (Y : Type) where
+  | leaf (data : Y)
+  | fork (data : Y) (left right : AugExtras Y)
+  deriving Repr, Inhabited
+
+/-- HashmapAug.mapInner. A fork decodes its extra after both branches (from the rest of the fork cell: the bits after the
+label, the refs after the two branches), a leaf decodes extra then value. -/
+def mapInnerAug {V Y : Type} (xdec : XDec Y) (zero : Y) (C : Codec V)
+    (keySize : Nat) : Nat → Int → Cell → Key → Outcome (List (Key × V) × AugExtras Y)
   | 0, _, _, _ => .err "fuel"
   | fuel + 1, left, .mk ty _ bits refs, pfx =>
-    if ty = tyPruned then .ok []
+    if ty = tyPruned then .ok ([], .leaf zero)
     else match loadLabel left keySize pfx bits with
       | .ok (size, pfx', rest) =>
         if pfx'.length < keySize then
           match refs with
           | [] => .err "not enough refs"
           | l :: refs' =>
-            match mapInnerAug skipX C keySize fuel (left - (1 + (size : Int))) l (pfx' ++ [false]) with
-            | .ok a =>
+            match mapInnerAug xdec zero C keySize fuel (left - (1 + (size : Int))) l (pfx' ++ [false]) with
+            | .ok (a, xa) =>
               match refs' with
               | [] => .err "not enough refs"
               | r :: refs'' =>
-                match mapInnerAug skipX C keySize fuel (left - (1 + (size : Int))) r (pfx' ++ [true]) with
-                | .ok b =>
+                match mapInnerAug xdec zero C keySize fuel (left - (1 + (size : Int))) r (pfx' ++ [true]) with
+                | .ok (b, xb) =>
                   if ty = tyLibrary then .err "library cell decoding is not configured properly"
-                  else match skipX rest refs'' with
-                    | .ok _ => .ok (a ++ b)
+                  else match xdec rest refs'' with
+                    | .ok (y, _, _) => .ok (a ++ b, .fork y xa xb)
                     | .err e => .err e
                     | .panic p => .panic p
-                | e => e
-            | e => e
+                | .err e => .err e
+                | .panic p => .panic p
+            | .err e => .err e
+            | .panic p => .panic p
         else if ty = tyLibrary then .err "library cell decoding is not configured properly"
-        else match skipX rest refs with
-          | .ok (rest', refs') =>
+        else match xdec rest refs with
+          | .ok (y, rest', refs') =>
             match C.dec rest' refs' with
-            | .ok v => .ok [(pfx', v)]
+            | .ok v => .ok ([(pfx', v)], .leaf y)
             | .err e => .err e
             | .panic p => .panic p
           | .err e => .err e
@@ -293,30 +304,36 @@ def mapInnerAug {V : Type} (skipX : List Bool → List Cell → Outcome (List Bo
       | .err e => .err e
       | .panic p => .panic p
 
-/-- HashmapAugE.UnmarshalTLB: struct { M Maybe ^(HashmapAug n X Y); Extra Y } -/
-def unmarshalAugE {V : Type} (skipX : List Bool → List Cell → Outcome (List Bool × List Cell)) (C : Codec V)
-    (keySize : Nat) (c : Cell) : Outcome (List (Key × V)) :=
+/-- HashmapAug.UnmarshalTLB (also used inline, e.g. AccountBlock.transactions) -/
+def unmarshalAug {V Y : Type} (xdec : XDec Y) (zero : Y) (C : Codec V) (keySize : Nat) (c : Cell) :
+    Outcome (List (Key × V) × AugExtras Y) :=
+  if c.ty = tyLibrary then .err "library cell decoding is not configured properly"
+  else mapInnerAug xdec zero C keySize (keySize + 1) keySize c []
+
+/-- HashmapAugE.UnmarshalTLB: struct { M Maybe ^(HashmapAug n X Y); Extra Y } — entries, extras tree, root extra -/
+def unmarshalAugE {V Y : Type} (xdec : XDec Y) (zero : Y) (C : Codec V)
+    (keySize : Nat) (c : Cell) : Outcome (List (Key × V) × AugExtras Y × Y) :=
   if c.ty = tyLibrary then .err "library cell decoding is not configured properly"
   else match c.bits with
     | [] => .err "not enough bits"
-    | false :: rest => match skipX rest c.refs with
-      | .ok _ => .ok []
+    | false :: rest => match xdec rest c.refs with
+      | .ok (y, _, _) => .ok ([], .leaf zero, y)
       | .err e => .err e
       | .panic p => .panic p
     | true :: rest =>
       match c.refs with
       | [] => .err "not enough refs"
       | r :: refs' =>
-        let m : Outcome (List (Key × V)) :=
-          if r.ty = tyPruned then .ok []
-          else if r.ty = tyLibrary then .err "library cell decoding is not configured properly"
-          else mapInnerAug skipX C keySize (keySize + 1) keySize r []
+        let m : Outcome (List (Key × V) × AugExtras Y) :=
+          if r.ty = tyPruned then .ok ([], .leaf zero)
+          else unmarshalAug xdec zero C keySize r
         match m with
-        | .ok kvs => match skipX rest refs' with
-          | .ok _ => .ok kvs
+        | .ok (kvs, xs) => match xdec rest refs' with
+          | .ok (y, _, _) => .ok (kvs, xs, y)
           | .err e => .err e
           | .panic p => .panic p
-        | e => e
+        | .err e => .err e
+        | .panic p => .panic p
 
 /-! ## Get / Put -/
 
